@@ -96,6 +96,9 @@ def gen_case(rnd, spec):
             ops.append(["remove", rnd.randint(0, 11)])
         elif k < 0.83:
             ops.append(["clear"])
+        elif k < 0.88:
+            # the children are replaced by assignment: a filtered list, the old ones plus a pool with a demand of its own, none
+            ops.append(["assign", rnd.choice(["filter", "plus", "empty", "same"]), rnd.randint(0, 11), gen_child(rnd, "denormal" if style == "denormal" else "random")])
         else:
             ops.append(["read"])
     return {"kind": kind, "children": children, "ops": ops, "style": style, "twin": rnd.random() < 0.3}
@@ -184,6 +187,7 @@ def execute(case, result):
                 if lo > 1:
                     result.count("aggregates_of_children_all_above_one")
 
+    written = [None]
     for idx, op in enumerate(case["ops"]):
         kind = op[0]
         children = list(comp.children)
@@ -198,6 +202,7 @@ def execute(case, result):
                 bad("writing demand %r raised %r" % (D, err))
                 continue
             result.count("writes_checked")
+            written[0] = D
             back = comp.demand
             if back != D or type(back) is not type(D):
                 bad("composite reads back %r after writing %r" % (back, D))
@@ -247,6 +252,29 @@ def execute(case, result):
         elif kind == "clear":
             comp.children.clear()
             del model[:]
+        elif kind == "assign":
+            if op[1] == "filter" and children:
+                new = [c for i, c in enumerate(children) if i != op[2] % len(children)]
+            elif op[1] == "plus":
+                new = children + [RecPool(**op[3])]
+            elif op[1] == "empty":
+                new = []
+            else:
+                new = list(children)
+            comp.children = new
+            model[:] = new
+            result.count("children_replaced_by_assignment")
+        if written[0] is not None:
+            # until the next write the composite reads back exactly what was written, whatever happens to its children
+            try:
+                back = comp.demand
+            except Exception as err:  # noqa: B902
+                bad("reading demand raised %r" % (err,))
+                break
+            if back != written[0] or type(back) is not type(written[0]):
+                bad("composite reads back %r, the demand written last is %r" % (back, written[0]))
+                break
+            result.count("read_backs_after_later_operations")
         now = list(comp.children)
         if len(now) != len(model) or any(a is not b for a, b in zip(now, model)):
             bad("the composite's children are %d pools, %d of them not its own (it was given / appended %d)"
@@ -275,7 +303,7 @@ def run_shard(spec):
 def finish(total, tier):
     for needed in (
         "writes_unequal_weights", "writes_uniform_fallback", "writes_uniform", "writes_without_children",
-        "fallback_no_children", "cases_with_a_second_composite", "fallback_zero_weight_supply", "fallback_zero_weight_nosupply", "aggregates_in_range", "aggregates_of_children_all_above_one",
+        "fallback_no_children", "children_replaced_by_assignment", "read_backs_after_later_operations", "cases_with_a_second_composite", "fallback_zero_weight_supply", "fallback_zero_weight_nosupply", "aggregates_in_range", "aggregates_of_children_all_above_one",
     ):
         if not total.counters.get(needed) and not total.violations:
             total.inconc("monitor never observed: " + needed)
